@@ -553,6 +553,8 @@ done:
 		}
 		if o.err != nil || !core.Eq(o.lines, sumworld.Lines(w.RecText("A", o.key), path, vers)) {
 			vs = append(vs, core.Violation{Sig: "c14:wrong-result", What: fmt.Sprintf("honest server, concurrent Lookup(%s,%s) by %s returned %q, %v", path, vers, o.t, o.lines, o.err)})
+			// (C01's last sentence as well: an honest server and honest cache never cause a failure)
+			vs = append(vs, core.Violation{Sig: "c01:honest-fails", What: fmt.Sprintf("honest server and cache (and honest writers of the shared configuration), but Lookup(%s,%s) by %s returned %q, %v", path, vers, o.t, o.lines, o.err)})
 		}
 	}
 	for _, f := range rs.takePrivate() {
